@@ -41,6 +41,9 @@ pub enum Wl {
     W14,
     /// download: the server sends 60 kB, the client only acknowledges
     W15,
+    /// pairs of application datagrams (500 bytes, then every size 560..=720) queued at once: the second
+    /// of a pair fits behind the first, fits only without its length field, or does not fit
+    W16,
 }
 
 pub fn plans(w: Wl, read: ReadMode) -> (Plan, Plan) {
@@ -98,6 +101,10 @@ pub fn plans(w: Wl, read: ReadMode) -> (Plan, Plan) {
             c.datagrams = vec![720; 30];
         }
         Wl::W15 => s.streams = vec![uni(60_000, 8000)],
+        Wl::W16 => {
+            c.streams = vec![uni(1000, 1000)];
+            c.datagrams = (560..=720).flat_map(|d| [500usize, d]).collect();
+        }
         Wl::W10 => {
             c.streams = vec![uni(40_000, 4000)];
             s.stop = Some((0, 2500, 55));
@@ -629,6 +636,7 @@ pub fn wl_from_str(s: &str) -> Wl {
         "W9" => Wl::W9,
         "W10" => Wl::W10,
         "W15" => Wl::W15,
+        "W16" => Wl::W16,
         "W11" => Wl::W11,
         "W12" => Wl::W12,
         "W13" => Wl::W13,
